@@ -258,7 +258,7 @@ class Evaluator:
 
     def _pow(self, a, b):
         bi = None
-        if b.x and b.e == 0 and b.v == ctx.floor(b.v) and abs(b.v) <= 64:
+        if b.x and b.e == 0 and b.v == ctx.floor(b.v) and abs(b.v) <= 64 and not (self.want_d and b.dm is not None and b.dm != 0):
             bi = int(b.v)
         if bi is not None:
             if a.v == 0 and bi < 0:
